@@ -24,6 +24,7 @@ const (
 	kindReturn = iota
 	kindBlock
 	kindPanic
+	kindGoexit // the function ends with runtime.Goexit(): no panic value, but it has ended
 )
 
 type scenario struct {
@@ -98,6 +99,8 @@ func (s *scenario) task(i int) func() {
 		switch s.kinds[i] {
 		case kindBlock:
 			<-s.gates[i]
+		case kindGoexit:
+			runtime.Goexit()
 		case kindPanic:
 			switch i % 4 {
 			case 0:
@@ -184,7 +187,7 @@ func (s *scenario) stuck(what string, submitted, wantInside int64) {
 func (s *scenario) describe() string {
 	k := make([]byte, len(s.kinds))
 	for i, v := range s.kinds {
-		k[i] = "rbp"[v]
+		k[i] = "rbpg"[v]
 	}
 	return fmt.Sprintf("limit=%d(effective %d) handler=%v tasks=%s", s.limit, s.N, s.handler, k)
 }
@@ -415,6 +418,9 @@ func genKinds(rng *ev.Rand, n int, pBlock, pPanic int) []int {
 			k[i] = kindPanic
 		default:
 			k[i] = kindReturn
+			if rng.Chance(1, 12) {
+				k[i] = kindGoexit
+			}
 		}
 	}
 	return k
@@ -783,6 +789,95 @@ func reuseCase(c *ev.Case) {
 	}
 }
 
+// twoLimitersCase: the panic handler of limiter A is kept busy (it blocks on a
+// gate of the harness) while a function of an unrelated limiter B panics: B's
+// value must still reach B's handler and B's slot must come back, whatever A's
+// handler is doing.
+func twoLimitersCase(c *ev.Case) {
+	rng := c.Rng
+	if stuckWaits.Load() >= 3 {
+		c.Add("cases_skipped_after_stuck_waits", 1)
+		return
+	}
+	nB := rng.Range(1, 4)
+	gateA := make(chan struct{})
+	var aIn, bHandled atomic.Int64
+	var A, B *goz.Limiter
+	if !c.Guard("NewLimiter", func() {
+		A = goz.NewLimiter(rng.Range(1, 3)).SetPanicHandler(func(any) { aIn.Add(1); <-gateA })
+		B = goz.NewLimiter(nB).SetPanicHandler(func(any) { bHandled.Add(1) })
+	}) {
+		return
+	}
+	defer func() {
+		select {
+		case <-gateA:
+		default:
+			close(gateA)
+		}
+	}()
+	c.Logf("limiter A: handler blocks; limiter B (limit %d): panicking function, then %d gated functions", nB, nB)
+	if !c.Guard("Go", func() { A.Go(func() { panic("a") }) }) {
+		return
+	}
+	if !waitFor(func() bool { return aIn.Load() == 1 }) {
+		c.Run().Inconclusive(fmt.Sprintf("%s[%d]: handler of limiter A was not entered", c.Engine, c.Index))
+		return
+	}
+	var bRan atomic.Int64
+	np := rng.Range(1, 3)
+	for i := 0; i < np; i++ {
+		if !c.Guard("Go", func() { B.Go(func() { defer bRan.Add(1); panic("b") }) }) {
+			return
+		}
+	}
+	if !waitFor(func() bool { return bHandled.Load() == int64(np) }) {
+		if bRan.Load() == int64(np) {
+			c.Failf("handler-blocked-by-other-limiter", "%d functions of limiter B panicked and ended, but only %d panic values reached B's handler while the handler of the unrelated limiter A is still running", np, bHandled.Load())
+		} else {
+			c.Run().Inconclusive(fmt.Sprintf("%s[%d]: functions of limiter B did not run", c.Engine, c.Index))
+		}
+		return
+	}
+	// B's slots must all be back
+	var in atomic.Int64
+	gate := make(chan struct{})
+	var sub sync.WaitGroup
+	sub.Add(1)
+	go func() {
+		defer sub.Done()
+		for i := 0; i < nB; i++ {
+			B.Go(func() { in.Add(1); <-gate; in.Add(-1) })
+		}
+	}()
+	if !waitFor(func() bool { return in.Load() == int64(nB) }) {
+		c.Failf("slot-leak", "after %d handled panics only %d of %d gated functions were admitted by limiter B while limiter A's handler is still running", np, in.Load(), nB)
+		close(gate)
+		return
+	}
+	close(gate)
+	sub.Wait()
+	close(gateA)
+	done := make(chan struct{})
+	go func() { defer close(done); A.Wait(); B.Wait() }()
+	if !waitFor(func() bool {
+		select {
+		case <-done:
+			return true
+		default:
+			return false
+		}
+	}) {
+		c.Run().Inconclusive(fmt.Sprintf("%s[%d]: Wait of A/B did not return", c.Engine, c.Index))
+		return
+	}
+	c.Add("two_limiter_scenarios", 1)
+	c.Distinct(ev.Mix(uint64(nB), uint64(np), uint64(c.Index%50)))
+	if c.WantSample() {
+		c.Sample(fmt.Sprintf("two limiters: A's handler blocked; B (limit %d) handles %d panics and then admits %d gated functions", nB, np, nB))
+	}
+}
+
 func main() {
 	r := ev.New("C19")
 	r.Rule("one case = (limit, task kinds return/block/panic, handler on/off, submitter count, release order) drawn from the seed; tasks are gated by channels; distinct = distinct scenario descriptions")
@@ -792,6 +887,7 @@ func main() {
 	r.Assume("a wait that does not complete within 15 s is a verdict only when the token channel is confirmed full (reflection) while fewer than n functions are inside; otherwise inconclusive")
 	r.CasesProc("scenario", r.N(12000, 300000), ev.Opt{Procs: 8, Workers: 4, AlwaysLog: true, MaxCaseSeconds: 120}, scenarioCase)
 	r.CasesProc("leak", r.N(2000, 50000), ev.Opt{Procs: 4, Workers: 4, AlwaysLog: true, MaxCaseSeconds: 120}, leakCase)
+	r.CasesProc("two-limiters", r.N(1500, 40000), ev.Opt{Procs: 6, Workers: 4, AlwaysLog: true, MaxCaseSeconds: 120}, twoLimitersCase)
 	r.CasesProc("reuse", r.N(4000, 100000), ev.Opt{Procs: 12, Workers: 1, AlwaysLog: true, MaxCaseSeconds: 120}, reuseCase)
 	r.CasesProc("reuse/race", r.N(800, 20000), ev.Opt{Bin: "race", Procs: 8, Workers: 1, AlwaysLog: true, MaxCaseSeconds: 120, IgnoreRaces: true}, reuseCase)
 	r.CasesProc("scenario/race", r.N(3000, 60000), ev.Opt{Bin: "race", Procs: 8, Workers: 2, AlwaysLog: true, MaxCaseSeconds: 120, IgnoreRaces: true}, scenarioCase)
@@ -801,6 +897,7 @@ func main() {
 	r.Require("refills_ok", 300)
 	r.Require("scenarios_default_limit", 50)
 	r.Require("reuse_scenarios", 1000)
+	r.Require("two_limiter_scenarios", 1000)
 	r.Require("timed_waits_expired", 500)
 	r.Require("reuse_drains_without_wait", 300)
 	r.Finish()
